@@ -142,7 +142,8 @@ Record inv (x : st) : Prop := {
   i_sum : summing -> forall c i, chnd x c = Some i ->
           colsum fst (cmem x) (i_sto i) (i_off i) (nxt (tids x)) = g_sum x c /\
           (ck cf = KSummer -> colsum snd (cmem x) (i_sto i) (i_off i) (nxt (tids x)) = g_cnt x c);
-  i_used : forall s k, In k (g_used x s) -> (k < nxt (tids x))%nat /\ (k < csize x s)%nat
+  i_used : forall s k, In k (g_used x s) -> (k < nxt (tids x))%nat /\ (k < csize x s)%nat;
+  i_held : forall k, (k < nxt (tids x))%nat -> ~ In k (fre (tids x)) -> exists t, t_tid (thr x t) = Some k
 }.
 
 Lemma inv_init : inv (init_for (ck cf)).
@@ -202,9 +203,11 @@ Lemma miss_inv : forall x t s k0 a', inv x -> t_alive (thr x t) = true ->
   (forall k, In k (fre a') -> In k (fre (tids x))) ->
   (forall u k, u <> t -> t_tid (thr x u) = Some k -> k <> k0) ->
   (nxt a' = nxt (tids x) \/ nxt a' = S (nxt (tids x))) ->
+  (forall k, t_tid (thr x t) = Some k -> k = k0) ->
+  (forall k, (k < nxt a')%nat -> ~ In k (fre a') -> k = k0 \/ ((k < nxt (tids x))%nat /\ ~ In k (fre (tids x)))) ->
   inv (miss_state x t s k0 a').
 Proof.
-  intros x t s k0 a' I Hal Hn Hk0 Hnf Hnd Hsub Hoth Hgrow.
+  intros x t s k0 a' I Hal Hn Hk0 Hnf Hnd Hsub Hoth Hgrow Hself Hheld.
   unfold miss_state. constructor; cbn.
   - intros k Hk. apply Hsub in Hk. apply (i_fre _ I) in Hk. lia.
   - exact Hnd.
@@ -237,6 +240,10 @@ Proof.
     + intros [<-|Hk]; [split; [exact Hk0|apply ensure_gt; exact HB]|].
       destruct (i_used _ I _ _ Hk). pose proof (ensure_ge (cB cf) (csize x s) k0). split; lia.
     + intros Hk. destruct (i_used _ I _ _ Hk). split; lia.
+  - intros k Hk Hf. destruct (Hheld k Hk Hf) as [->|[A B]].
+    + exists t. unfold upd. rewrite Nat.eqb_refl. reflexivity.
+    + destruct (i_held _ I k A B) as [u Eu]. exists u. unfold upd. destruct (Nat.eqb_spec u t); [|exact Eu].
+      subst u. cbn. f_equal. symmetry. apply Hself. exact Eu.
 Qed.
 
 Definition same_but_threads (x x' : st) : Prop :=
@@ -260,6 +267,7 @@ Proof.
       split; [apply miss_inv; auto|].
       * apply (i_fre_nd _ I).
       * intros u k1 Hu E F. subst k1. apply Hu. eapply (i_tid_inj _ I); eauto.
+      * intros k1 E. congruence.
       * unfold miss_state, same_but_threads; cbn. unfold upd. rewrite !Nat.eqb_refl. cbn.
         repeat split; auto; try (apply (ensure_gt (cB cf) (csize x s) k HB)).
         -- intros u Hu. destruct (Nat.eqb_spec u t); [contradiction|reflexivity].
@@ -271,6 +279,10 @@ Proof.
       * intros u k1 Hu E F. subst k1. destruct (i_tid _ I _ _ E) as (B1 & B2 & B3).
         destruct A7 as [[A7 _]|[A7 _]]; [contradiction|lia].
       * destruct A7 as [[_ ->]|[_ [-> _]]]; auto.
+      * intros k1 E. congruence.
+      * intros k1 P Q. destruct (Nat.eq_dec k1 k) as [->|Hne]; [left; reflexivity|right].
+        assert (Hnf : ~ In k1 (fre (tids x))) by (intros F; apply Q, A6; assumption).
+        split; [|exact Hnf]. destruct A7 as [[_ E]|[E1 [E2 _]]]; [rewrite E in P; exact P|]. subst k. rewrite E2 in P. lia.
       * unfold miss_state, same_but_threads; cbn. unfold upd. rewrite !Nat.eqb_refl. cbn.
         repeat split; auto; try (apply (ensure_gt (cB cf) (csize x s) k HB)).
         -- intros u Hu. destruct (Nat.eqb_spec u t); [contradiction|reflexivity].
@@ -305,6 +317,8 @@ Proof.
   - exact (i_freez _ I).
   - exact (i_sum _ I).
   - exact (i_used _ I).
+  - intros k A B. destruct (i_held _ I k A B) as [u Eu]. exists u. unfold upd.
+    destruct (Nat.eqb_spec u t); [|exact Eu]. subst u. destruct (i_tid _ I _ _ Eu) as (_ & _ & C). congruence.
 Qed.
 
 Lemma inv_exit : forall x t, inv x -> t_alive (thr x t) = true ->
@@ -335,6 +349,9 @@ Proof.
     + exact (i_freez _ I).
     + exact (i_sum _ I).
     + exact (i_used _ I).
+    + intros j P Q. assert (Hj : j <> k) by (intros ->; apply Q; left; reflexivity).
+      destruct (i_held _ I j P) as [u Eu]; [intros F; apply Q; right; exact F|].
+      exists u. unfold upd. destruct (Nat.eqb_spec u t); [|exact Eu]. subst u. congruence.
   - constructor; cbn.
     + exact (i_fre _ I).
     + exact (i_fre_nd _ I).
@@ -352,11 +369,14 @@ Proof.
     + exact (i_freez _ I).
     + exact (i_sum _ I).
     + exact (i_used _ I).
+    + intros j P Q. destruct (i_held _ I j P Q) as [u Eu]. exists u. unfold upd.
+      destruct (Nat.eqb_spec u t); [|exact Eu]. subst u. congruence.
 Qed.
 
 Ltac same I := first [exact (i_fre _ I) | exact (i_fre_nd _ I) | exact (i_tid _ I) | exact (i_tid_inj _ I)
   | exact (i_cache _ I) | exact (i_mem _ I) | exact (i_size _ I) | exact (i_inst _ I) | exact (i_inst_inj _ I)
-  | exact (i_ifre _ I) | exact (i_ifre_nd _ I) | exact (i_freez _ I) | exact (i_sum _ I) | exact (i_used _ I)].
+  | exact (i_ifre _ I) | exact (i_ifre_nd _ I) | exact (i_freez _ I) | exact (i_sum _ I) | exact (i_used _ I)
+  | exact (i_held _ I)].
 
 Lemma inv_new : forall x c, inv x -> chnd x c = None -> inv (fst (new_inst cf x c)).
 Proof.
@@ -733,23 +753,34 @@ Proof.
 Qed.
 
 (* ------------------------------------------------------------------------------------------ for_each_alive *)
-(* the const overload never reads out of bounds *)
-Lemma alive_range_const : forall size r, alive_range true size r <> None.
+(* both overloads clamp the ranges to the snapshot size: never a read outside the block table *)
+Lemma g_alive_nc : forall b e sz, alive_nc_begin b sz = Z.min b sz /\ alive_nc_end e sz = Z.min e sz.
+Proof. intros. split; reflexivity. Qed.
+
+Lemma alive_range_clamped : forall cst size r,
+  alive_range cst size r =
+  Some (seq (Z.to_nat (Z.min (Z.of_nat (fst r)) (Z.of_nat size)))
+            (Z.to_nat (Z.min (Z.of_nat (snd r)) (Z.of_nat size)) - Z.to_nat (Z.min (Z.of_nat (fst r)) (Z.of_nat size)))).
 Proof.
-  intros size r. unfold alive_range. destruct (g_alive_c (Z.of_nat (fst r)) (Z.of_nat (snd r)) (Z.of_nat size)) as [-> ->].
+  intros cst size r. unfold alive_range.
+  destruct (g_alive_c (Z.of_nat (fst r)) (Z.of_nat (snd r)) (Z.of_nat size)) as [Ec1 Ec2].
+  destruct (g_alive_nc (Z.of_nat (fst r)) (Z.of_nat (snd r)) (Z.of_nat size)) as [En1 En2].
+  assert (E1 : (if cst then alive_c_begin (Z.of_nat (fst r)) (Z.of_nat size) else alive_nc_begin (Z.of_nat (fst r)) (Z.of_nat size))
+               = Z.min (Z.of_nat (fst r)) (Z.of_nat size)) by (destruct cst; assumption).
+  assert (E2 : (if cst then alive_c_end (Z.of_nat (snd r)) (Z.of_nat size) else alive_nc_end (Z.of_nat (snd r)) (Z.of_nat size))
+               = Z.min (Z.of_nat (snd r)) (Z.of_nat size)) by (destruct cst; assumption).
+  rewrite E1, E2.
   destruct (Z.ltb_spec (Z.min (Z.of_nat (fst r)) (Z.of_nat size)) (Z.min (Z.of_nat (snd r)) (Z.of_nat size)));
-    destruct (Z.ltb_spec (Z.of_nat size) (Z.min (Z.of_nat (snd r)) (Z.of_nat size))); cbn; try discriminate. lia.
+    destruct (Z.ltb_spec (Z.of_nat size) (Z.min (Z.of_nat (snd r)) (Z.of_nat size))); cbn [andb]; try reflexivity. lia.
 Qed.
 
-Theorem ct_alive_const_in_bounds : forall x s, for_each_alive x true s <> None.
+Theorem ct_alive_in_bounds : forall x cst s, for_each_alive x cst s <> None.
 Proof.
-  intros x s. unfold for_each_alive. induction (alive_runs (tids x)) as [|r q IH]; cbn; [discriminate|].
-  pose proof (alive_range_const (csize x s) r). destruct (alive_range true (csize x s) r); [|contradiction].
-  destruct (alive_lines true (csize x s) q); [discriminate|contradiction].
+  intros x cst s. unfold for_each_alive. induction (alive_runs (tids x)) as [|r q IH]; cbn [alive_lines]; [discriminate|].
+  rewrite alive_range_clamped. destruct (alive_lines cst (csize x s) q); [discriminate|contradiction].
 Qed.
 
-
-(* --------------------------------------------------------------------------------------------- refutations *)
+(* ------------------------------------------------------------------------------- the real configurations *)
 (* the configurations of the real classes *)
 Definition cfg_compact16 : cfg := {| cK := num_per_line 1 8; cB := block_size; ck := KAdder |}.
 Definition cfg_adder : cfg := {| cK := num_per_line 64 8; cB := block_size; ck := KAdder |}.
@@ -759,32 +790,6 @@ Definition cfg_miner : cfg := {| cK := num_per_line 64 16; cB := block_size; ck 
 
 Lemma cfgs_ok : cfg_ok cfg_compact16 /\ cfg_ok cfg_adder /\ cfg_ok cfg_summer /\ cfg_ok cfg_maxer /\ cfg_ok cfg_miner.
 Proof. unfold cfg_ok. repeat split; apply Nat.leb_le; vm_compute; reflexivity. Qed.
-
-(* F6: 17 instances (the 17th lives in the second storage, which no thread has touched), one thread that used
-   the first: the non-const for_each_alive of the 17th walks [0, 1) of an empty block table *)
-Definition h_alive_oob : list op :=
-  Spawn 0 :: map CNew (seq 0 17) ++ [CAdd 0 0 5%Z].
-
-Theorem ct_alive_nonconst_refuted :
-  exists cf h c, cfg_ok cf /\ threads_small cf (run cf (start cf) h) /\ chnd (run cf (start cf) h) c <> None /\
-    snd (step cf (run cf (start cf) h) (CAlive c false)) = OList None.
-Proof.
-  exists cfg_compact16, h_alive_oob, 16. split; [apply cfgs_ok|]. split; [vm_compute; discriminate|].
-  split; vm_compute; [discriminate|reflexivity].
-Qed.
-
-(* a maxer whose only sample of the period is numeric_limits::min() reports "no sample" *)
-Theorem ct_extreme_refuted :
-  exists h c, let x := run cfg_maxer (start cfg_maxer) h in
-    g_per x c = [int64_min] /\ chnd x c <> None /\ step cfg_maxer x (CRead c) = (x, OVal 0%Z 0%Z).
-Proof.
-  exists [Spawn 0; CNew 0; CAdd 0 0 int64_min], 0. cbv zeta. split; [vm_compute; reflexivity|].
-  split; [vm_compute; discriminate|]. unfold step. 
-  set (x := run cfg_maxer (start cfg_maxer) [Spawn 0; CNew 0; CAdd 0 0 int64_min]).
-  assert (E : exists i, chnd x 0 = Some i /\ read cfg_maxer x 0 i = (0%Z, 0%Z)).
-  { eexists. split; [vm_compute; reflexivity|]. vm_compute. reflexivity. }
-  destruct E as (i & -> & ->). reflexivity.
-Qed.
 
 (* ------------------------------------------------------------------------------- concurrent reader bounds *)
 Definition SZ (l : list Z) : Z := fold_right Z.add 0%Z l.
